@@ -234,6 +234,11 @@ example : callHandle (run { facts with dataHolders := [.jit, .package] } reload)
     ∧ callHandle (run { facts with dataHolders := [.jit, .package] } (reload.take 7)) 0 = some (.ok 1240) := by
   decide
 
+/-- fields of plain data in `ModuleData` (say, interned literal bytes kept where handles hold them) are
+    admissible anywhere in the declaration order, and data held there is fine -/
+example : goodB { facts with moduleFields := .plain :: facts.moduleFields ++ [.plain]
+                             dataHolders := .moduleData :: facts.dataHolders } = true := by decide
+
 /-- the mapped-code hypothesis of T3 is met by every freshly compiled module -/
 example : (run facts [.buildRuntime 0, .compile 0 1 1 false false false 7]).mapped 1 = true := by decide
 
